@@ -303,4 +303,106 @@ theorem C11p_zero_immediate (S : CTy) (w L : Nat) (v : Int) (log : List Ev) (s :
             | none => simp [h3] at hl
             | some s3 => cases e3 <;> simp [step, init] at h3
 
+/-! ## The protocol model (`Model/Bulk.lean`, `Props/C11Proto.lean`)
+
+In the protocol model the pops are atomic and `chunk k j` only confirms the chunk a task is
+processing: it is the one event that leaves the state unchanged (the stutter of this model). -/
+
+/-- **No stuck state of the protocol model.**  In every reachable state in which the receiver has
+    not been signalled some event other than `chunk` is enabled; who moves: `Bulk.actor` — the
+    spawner loop at an untouched worker, the local worker once the spawner loop is finished, a
+    spawned task, a task inside `do_work` (a pop is always enabled: with a chunk or `nullopt`),
+    a task about to decrement, or — outcome decided — the completion. -/
+theorem C11p_proto_no_stuck_state (w L : Nat) (a : Nat → Nat) (s : Bulk.St)
+    (h : C11Proto.Reachable w L a s) (h0 : s.signals = 0) :
+    ∃ e s', Bulk.isChunk e = false ∧ Bulk.step s e = some s' := by
+  obtain ⟨hL, hm, log, hl⟩ := h
+  exact Bulk.proto_progress s (Bulk.invQ_of_accepted hL hm hl).1 (Bulk.spInv_of_accepted hl) h0
+
+/-- **Termination measure of the protocol model.**  Every accepted event other than `chunk`
+    strictly decreases `muP` (chunks left in the queues + place of every participant + pending
+    completion) — in every state; `chunk` leaves the state unchanged. -/
+theorem C11p_proto_measure_decreases (s s' : Bulk.St) (e : Bulk.Ev) (h : Bulk.step s e = some s') :
+    (Bulk.isChunk e = false → Bulk.muP s' < Bulk.muP s) ∧ (Bulk.isChunk e = true → s' = s) :=
+  ⟨fun he => Bulk.muP_step s s' e he h, fun he => Bulk.chunk_same s s' e he h⟩
+
+/-- **Length bound of the protocol model.**  An accepted log has at most
+    `(a w − a 0) + w·(3w + 8) + 1` events other than `chunk` (`a w − a 0` = number of chunks). -/
+theorem C11p_proto_run_length_bound (w L : Nat) (a : Nat → Nat) (s : Bulk.St) (log : List Bulk.Ev)
+    (hm : ∀ k, k < w → a k ≤ a (k + 1)) (hl : runLog Bulk.step (Bulk.init w L a) log = some s) :
+    Bulk.workP log + Bulk.muP s ≤ (a w - a 0) + w * (3 * w + 8) + 1 := by
+  have := Bulk.workP_le_muP _ _ log hl
+  rw [Bulk.muP_init w L a hm] at this
+  exact this
+
+/-- **A maximal run of the protocol model signals exactly once**, after every participant has
+    decremented, with `error` exactly when some call threw. -/
+theorem C11p_proto_maximal_run_signals_once (w L : Nat) (a : Nat → Nat) (s : Bulk.St)
+    (h : C11Proto.Reachable w L a s)
+    (hmax : ∀ e s', Bulk.step s e = some s' → Bulk.isChunk e = true) :
+    s.signals = 1 ∧ ∃ err, s.outcome = some err ∧ (err = true ↔ 0 < s.threw) ∧
+      ∀ k, k < s.w → s.pc k = .decd := by
+  have hi := (Bulk.invQ_of_accepted h.1 h.2.1 h.2.2.choose_spec).1
+  have h1 : s.signals = 1 := by
+    have := hi.sig1
+    by_cases h0 : s.signals = 0
+    · obtain ⟨e, s', he, hs⟩ := C11p_proto_no_stuck_state w L a s h h0
+      have := hmax e s' hs
+      rw [he] at this; simp at this
+    · omega
+  refine ⟨h1, ?_⟩
+  cases ho : s.outcome with
+  | none => have := (hi.outn ho).2; omega
+  | some err =>
+    obtain ⟨_, h3, h4, _⟩ := C11Proto.C11_complete_once_after_all w L a s h err ho
+    exact ⟨err, rfl, h4, h3⟩
+
+/-! ## Non-vacuity -/
+
+/-- the measure along a log (one entry per visited state) -/
+def muTrace : St → List Ev → List Nat
+  | s, [] => [mu s]
+  | s, e :: es => mu s :: (match step s e with | some s' => muTrace s' es | none => [])
+
+/-- `bulk<int>(3)` on 2 workers, predecessor on worker 1: chunk size 1, queues `[0,1)` and `[1,3)`;
+    worker 0 runs chunk 0 and **steals** chunk 2 from the right end of worker 1's queue, worker 1
+    runs chunk 1 whose call **throws** (index 1); the run ends with `set_error(exception of 1)`. -/
+def throwStealLog : List Ev :=
+  [.plan 1, .spawn 0, .task 1, .task 0, .load 0 0 0 1, .cas 0 0 true 1 1, .chunk 0 0, .call 0 0 7,
+   .load 1 1 1 3, .cas 1 1 true 2 3, .ret 0, .chunk 1 1, .call 1 1 7, .throw 1, .load 0 0 1 1,
+   .load 0 1 2 3, .cas 0 1 true 2 2, .chunk 0 2, .call 0 2 7, .exc 1, .ret 0, .dec 1 false,
+   .load 0 1 2 2, .dec 0 true, .decide 0 true, .sig true 1]
+
+/-- the run is accepted, completes exactly once with the thrown exception, all three indices
+    were called -/
+example : (runLog step (init CTy.i32 2 3 1 7) throwStealLog).map
+    (fun s => (s.done, s.thrown, s.calls, mu s)) =
+    some ([(true, 1)], [1], [(2, 7), (1, 7), (0, 7)], 4) := by decide +kernel
+
+/-- the measure starts at the bound `(w + 4)·n + w·(3w + 10) + 3 = 53` (the bound is attained by
+    the start state), decreases with each of the 25 non-stutter events and stays at 5 over the
+    stutter `decide 0 true` -/
+example : muTrace (init CTy.i32 2 3 1 7) throwStealLog =
+    [53, 51, 49, 45, 43, 42, 40, 39, 38, 37, 35, 34, 33, 32, 31, 28, 27, 25, 24, 23, 15, 14, 12, 7,
+     5, 5, 4] ∧ bound 3 2 = 53 ∧ work throwStealLog = 25 := by decide +kernel
+
+/-- a failed compare-exchange (worker 0's loaded word of queue 1 became stale by worker 1's pop)
+    decreases the measure: 31 → 30, then the retry succeeds -/
+example : muTrace (init CTy.i32 2 3 0 7)
+    [.plan 1, .spawn 1, .task 0, .task 1, .load 1 1 1 3, .load 0 0 0 1, .cas 0 0 true 1 1, .chunk 0 0,
+     .call 0 0 7, .ret 0, .load 0 0 1 1, .load 0 1 1 3, .cas 1 1 true 2 3, .cas 0 1 false 2 3,
+     .cas 0 1 true 2 2] =
+    [53, 51, 49, 45, 43, 42, 41, 39, 38, 37, 36, 33, 32, 31, 30, 28] := by decide +kernel
+
+/-- a second failed compare-exchange on an unchanged word is rejected: failed CASes cannot
+    repeat without an intervening successful pop (no stutter) -/
+example : (runLog step (init CTy.i32 2 3 0 7)
+    [.plan 1, .spawn 1, .task 0, .task 1, .load 1 1 1 3, .load 0 0 0 1, .cas 0 0 true 1 1, .chunk 0 0,
+     .call 0 0 7, .ret 0, .load 0 0 1 1, .load 0 1 1 3, .cas 1 1 true 2 3, .cas 0 1 false 2 3,
+     .cas 0 1 false 2 3]) = none := by decide +kernel
+
+/-- `n = 0`: the whole run is `[zero, sig false v]` -/
+example : (runLog step (init CTy.i32 4 0 2 9) [.zero, .sig false 9]).map (fun s => (s.done, mu s)) =
+    some ([(false, 9)], 0) := by decide +kernel
+
 end PikaVerif.C11Progress
